@@ -42,12 +42,17 @@ def grids():
     }
 
 
+def big_grid():
+    # more than 4096 cells (beyond the size at which caches / fast paths for large images would engage); only used by the tracker-pair blocks
+    return {"kind": "cart", "shape": [64, 66], "dx": [1.0, 1.0], "origin": [0.0, 0.0], "periodic": [True, False]}
+
+
 def make_field(gk, name):
     from pde import ScalarField
 
     from droplets import DiffuseDroplet, Emulsion
 
-    g = grids()[gk]
+    g = big_grid() if gk == "2d-big" else grids()[gk]
     grid = geom.make_grid(g, share=True)  # as in a simulation, all frames live on ONE grid object
     if name == "scaled":
         return make_field(gk, "two") * 3.0 - 1.0
@@ -59,7 +64,9 @@ def make_field(gk, name):
         idx = np.indices(grid.shape)
         s = sum((k + 2) * i for k, i in enumerate(idx))
         return ScalarField(grid, ((s * 37 + sum(i * i for i in idx) * 11) % 17) / 16.0)
-    if gk == "2d":
+    if gk == "2d-big":
+        drops = {"one": [([20.2, 24.1], 12.0)], "two": [([20.2, 24.1], 12.0), ([48.6, 50.9], 4.0)], "moved": [([22.0, 25.6], 11.0), ([48.0, 49.0], 6.5)]}[name]
+    elif gk == "2d":
         drops = {"one": [([3.2, 4.1], 2.6)], "two": [([3.2, 4.1], 2.6), ([8.6, 8.9], 1.9)], "moved": [([4.0, 4.6], 2.4)]}[name]
     elif gk == "1d":
         drops = {"one": [([0.3], 1.3)], "two": [([-0.4], 0.9), ([3.6], 1.2)], "moved": [([0.8], 1.1)]}[name]
@@ -100,6 +107,13 @@ def blocks(tier, seed):
     # two differently configured trackers fed alternately in one (fresh) process: what one analysis does must not change the other
     for a in range(len(TWO_SETTINGS)):
         out.append({"part": "two-trackers", "a": a})
+    for a in range(len(BIG_SETTINGS)):
+        out.append({"part": "two-trackers", "a": a, "big": True})
+    # a length-scale tracker and a droplet tracker attached to the same simulation state, in either order
+    for method in ("structure_factor_mean", "structure_factor_maximum", "droplet_detection"):
+        for order in ("length-first", "droplet-first"):
+            for thr in (0.5, 0.3, "auto"):
+                out.append({"part": "tracker-chain", "method": method, "order": order, "threshold": thr, "tier": tier})
     # one length-scale tracker fed frames that live on different grids of equal shape
     for method in ("structure_factor_mean", "structure_factor_maximum"):
         out.append({"part": "length-grids", "method": method})
@@ -112,6 +126,12 @@ TWO_SETTINGS = [
     {"threshold": "auto", "minimal_radius": 0, "refine": True, "refine_args": {"tolerance": 1e-3}, "perturbation_modes": 0},
     {"threshold": "auto", "minimal_radius": 0, "refine": True, "refine_args": {"vmin": None, "vmax": None, "adjust_values": True}, "perturbation_modes": 0},
     {"threshold": 0.5, "minimal_radius": 1.5, "refine": False, "refine_args": None, "perturbation_modes": 2},
+]
+BIG_SETTINGS = [
+    {"threshold": 0.5, "minimal_radius": 8, "refine": False, "refine_args": None, "perturbation_modes": 0},
+    {"threshold": 0.5, "minimal_radius": 0, "refine": False, "refine_args": None, "perturbation_modes": 0},
+    {"threshold": "auto", "minimal_radius": 5.5, "refine": False, "refine_args": None, "perturbation_modes": 2},
+    {"threshold": 0.5, "minimal_radius": 0, "refine": True, "refine_args": {"tolerance": 1e-4}, "perturbation_modes": 0},
 ]
 GRID_FIELDS = {"tall": ([8, 8], [1.0, 2.0]), "wide": ([8, 8], [2.0, 1.0]), "small": ([8, 8], [1.5, 1.5]), "other": ([6, 10], [1.0, 1.0])}
 
@@ -156,11 +176,21 @@ def cases(block):
         for seq in sequences(3, FIELDS):
             for tv in ((("floats" if len(seq) % 2 else "unit"), "repeated") if len(seq) >= 3 else (("floats" if len(seq) % 2 else "unit"),)):
                 yield {"part": p, "grid": block["grid"], "method": block["method"], "seq": list(seq), "times": tv, "source": "index" if len(seq) == 2 else "none"}
+    elif p == "two-trackers" and block.get("big"):
+        for b in range(len(BIG_SETTINGS)):
+            if b != block["a"]:
+                for seq in itertools.product(["one", "two", "moved"], repeat=2):
+                    yield {"part": p, "a": block["a"], "b": b, "seq": list(seq), "big": True}
+                yield {"part": p, "a": block["a"], "b": b, "seq": ["two", "two", "scaled"], "big": True}
     elif p == "two-trackers":
         for b in range(len(TWO_SETTINGS)):
             if b != block["a"]:
                 for seq in itertools.product(["one", "two", "moved", "scaled"], repeat=2):
                     yield {"part": p, "a": block["a"], "b": b, "seq": list(seq)}
+    elif p == "tracker-chain":
+        for n in ((1, 2, 3) if (block["threshold"] == 0.5 or block.get("tier") == "thorough") else (1, 2)):
+            for seq in itertools.product(["one", "two", "scaled", "noise"], repeat=n):
+                yield {"part": p, "method": block["method"], "order": block["order"], "threshold": block["threshold"], "seq": list(seq)}
     elif p == "length-grids":
         for n in (1, 2, 3, 4):
             for seq in itertools.product(list(GRID_FIELDS), repeat=n):
@@ -221,6 +251,8 @@ def run_case(case, ctx):
         return run_long(case, ctx)
     if p == "two-trackers":
         return run_two(case, ctx)
+    if p == "tracker-chain":
+        return run_chain(case, ctx)
     if p == "length-grids":
         return run_length_grids(case, ctx)
     return run_solver(case, ctx)
@@ -241,15 +273,21 @@ def run_two(case, ctx):
     from droplets import DropletTracker
     from mcx import core
 
-    sa, sb = TWO_SETTINGS[case["a"]], TWO_SETTINGS[case["b"]]
-    tags = {"part": "two-trackers", "a": case["a"], "b": case["b"]}
+    menu = BIG_SETTINGS if case.get("big") else TWO_SETTINGS
+    gk = "2d-big" if case.get("big") else "2d"
+    sa, sb = menu[case["a"]], menu[case["b"]]
+    tags = {"part": "two-trackers", "a": case["a"], "b": case["b"], "big": bool(case.get("big"))}
 
     def refs():
-        fields = [make_field("2d", n) for n in case["seq"]]
+        fields = [make_field(gk, n) for n in case["seq"]]
         return _framewise(fields, sa)
 
+    def refs_b():
+        fields = [make_field(gk, n) for n in case["seq"]]
+        return _framewise(fields, sb)
+
     def both():
-        fields = [make_field("2d", n) for n in case["seq"]]
+        fields = [make_field(gk, n) for n in case["seq"]]
         trs = []
         for st in (sa, sb):
             trs.append(DropletTracker(1, threshold=st["threshold"], minimal_radius=st["minimal_radius"], refine=st["refine"],
@@ -258,17 +296,60 @@ def run_two(case, ctx):
         for i, f in enumerate(fields):
             for tr_ in trs:  # alternately, as two trackers attached to one simulation are
                 tr_.handle(f, float(i))
-        return [ekey(e) for e in trs[0].data.emulsions]
+        return [ekey(e) for e in trs[0].data.emulsions], [ekey(e) for e in trs[1].data.emulsions]
 
     try:
         want = core.in_fork(refs)  # tracker A's settings alone, in a process that never saw B's
-        got = core.in_fork(both)
+        want_b = core.in_fork(refs_b)
+        got, got_b = core.in_fork(both)
+        ctx.op(4 * len(case["seq"]))
+    except Exception as e:  # noqa
+        ctx.check("C14.no-raise", False, {"exc": repr(e)[-400:]}, tags)
+        return
+    ctx.check("C14.equals-framewise", got == want, {"what": "tracker A (handled first) differs when tracker B runs alongside", "frames_differing": [i for i, (x, y) in enumerate(zip(got, want)) if x != y]}, tags)
+    ctx.check("C14.equals-framewise", got_b == want_b, {"what": "tracker B (handled second) differs when tracker A runs alongside", "frames_differing": [i for i, (x, y) in enumerate(zip(got_b, want_b)) if x != y]}, tags)
+    ctx.count("interleaved-tracker-runs")
+    if case.get("big"):
+        ctx.count("interleaved-tracker-runs-on-images-with-more-than-4096-cells")
+
+
+def run_chain(case, ctx):
+    """a LengthScaleTracker and a DropletTracker handle the SAME state object (as trackers attached to one simulation do); the droplet
+    tracker must record what an offline analysis of copies of the frames gives, and no tracker may modify the state it is shown"""
+    from droplets import DropletTracker, LengthScaleTracker
+    from mcx import core
+
+    tags = {"part": "tracker-chain", "method": case["method"], "order": case["order"]}
+    st = {"threshold": case["threshold"], "minimal_radius": 0, "refine": False, "refine_args": None, "perturbation_modes": 0}
+
+    def refs():
+        return _framewise([make_field("2d", n) for n in case["seq"]], st)
+
+    def chain():
+        fields = [make_field("2d", n) for n in case["seq"]]
+        dt = DropletTracker(1, threshold=st["threshold"], minimal_radius=0)
+        lt = LengthScaleTracker(1, method=case["method"])
+        trs = [lt, dt] if case["order"] == "length-first" else [dt, lt]
+        for t in trs:
+            t.initialize(fields[0])
+        unmodified = True
+        for i, f in enumerate(fields):
+            before = f.data.tobytes()
+            for t in trs:
+                t.handle(f, float(i))
+                unmodified = unmodified and f.data.tobytes() == before
+        return [ekey(e) for e in dt.data.emulsions], unmodified
+
+    try:
+        want = core.in_fork(refs)
+        got, unmodified = core.in_fork(chain)
         ctx.op(3 * len(case["seq"]))
     except Exception as e:  # noqa
         ctx.check("C14.no-raise", False, {"exc": repr(e)[-400:]}, tags)
         return
-    ctx.check("C14.equals-framewise", got == want, {"what": "tracker A differs when tracker B runs alongside", "frames_differing": [i for i, (x, y) in enumerate(zip(got, want)) if x != y]}, tags)
-    ctx.count("interleaved-tracker-runs")
+    ctx.check("C14.equals-framewise", got == want, {"what": "droplet tracker next to a length-scale tracker differs from the offline analysis of the frames", "frames_differing": [i for i, (x, y) in enumerate(zip(got, want)) if x != y]}, tags)
+    ctx.check("C14.state-unmodified", bool(unmodified), {"what": "a tracker modified the state it was shown"}, tags)
+    ctx.count("tracker-chains")
 
 
 def run_length_grids(case, ctx):
@@ -498,4 +579,4 @@ def run_solver(case, ctx):
 
 def expected_positive(tier):
     return ["C14.equals-offline", "C14.equals-framewise", "C14.file", "C14.ls-value", "C14.ls-file", "C14.ls-no-raise", "C14.times", "C14.prefilled-kept", "frames-with-droplets",
-            "mixture-of-empty-and-non-empty-frames", "length-analysis-raises", "finite-length-scales", "sequences-with->=11-frames", "real-solver-runs", "interleaved-tracker-runs", "length-frames-on-different-grids"]
+            "mixture-of-empty-and-non-empty-frames", "length-analysis-raises", "finite-length-scales", "sequences-with->=11-frames", "real-solver-runs", "interleaved-tracker-runs", "length-frames-on-different-grids", "interleaved-tracker-runs-on-images-with-more-than-4096-cells", "tracker-chains", "C14.state-unmodified"]
